@@ -71,6 +71,8 @@ def gen_cost(rng: random.Random) -> Dict[str, Any]:
 
 def make_plan(run_seed: int, profile: Dict[str, Any]) -> Dict[str, Any]:
     rng = random.Random(run_seed)
+    if profile.get("families") and rng.random() < profile.get("families_prob", 0.4):
+        profile = dict(profile, family=rng.choice(profile["families"]))
     family, grammar = make_grammar(rng, profile.get("family"))
     n_solvers = rng.choice([1, 1, 1, 2, 2, 3])
     share_scenario = rng.random() < 0.5
